@@ -465,6 +465,8 @@ def check(run) -> None:
         for clause, msg in fails:
             run.fail(clause, {"clause": clause, "sites": sorted(c["sites"])}, {k: v for k, v in c.items() if k != "workdir"}, msg,
                      replay={"seq": {k: v for k, v in c.items() if k != "workdir"}})
+    boot_import_part(run)
+    quality_junk_part(run)
     run.sample({"fault_case": {k: v for k, v in cases[0].items() if k != "workdir"}}, cap=2)
     run.sample({"spec_vector": seq_cases[0]["sites"], "log": seq_cases[0]["log"]} if seq_cases else {}, cap=3)
     run.exhaustive = True
@@ -496,6 +498,10 @@ def replay(rep) -> int:
         fails = run_case(dict(r["case"], workdir="/verif/.work/C20"))
     elif "semi" in r:
         fails = semi_garbage_case(dict(r["semi"], workdir="/verif/.work/C20"))
+    elif "quality_junk" in r:
+        fails = quality_junk_case(dict(r["quality_junk"], workdir="/verif/.work/C20"))
+    elif "boot_import" in r:
+        fails = boot_import_case(dict(r["boot_import"], workdir="/verif/.work/C20"))
     else:
         fails = run_seq_case(dict(r["seq"], workdir="/verif/.work/C20"))
     for f in fails:
@@ -505,3 +511,142 @@ def replay(rep) -> int:
         return 1
     print("replay: conforms")
     return 0
+
+
+# ---- BootImport.tla: the store section of a snapshot is imported atomically ---------------------------------------
+_BI_JUNK = [None, "x", 7, {"target_id": "k", "value": "abc"}, {"target_id": "k", "value": None}, {"target_id": "k", "value": [1]}, ["k", 2.0]]
+
+
+def boot_import_case(case) -> List[Tuple[str, str]]:
+    """a terminal state of BootImport.tla on the real boot hook: the store keeps a `.w` weight map (the
+    snapshot writer's fallback shape), the snapshot carries store.weights with the damaged items the model chose;
+    after the boot turn the map must be the model's (the map before boot, or the complete snapshot map)"""
+    from ..turnrun import Session
+    os.environ["CI"] = "true"
+    t = case["t"]
+    work = tempfile.mkdtemp(prefix="c20bi_", dir=case["workdir"])
+    try:
+        s = Session(os.path.join(work, "w"), base_cfg={}, boot_loaded=False)
+        store = s.state["store"]
+        store.w = {("node", k, "weight"): 1.0 for k in t["prior"]}
+        items = []
+        for j, it in enumerate(t["items"]):
+            if it["ok"]:
+                items.append({"target_kind": "node", "target_id": it["key"], "attr": "weight", "value": 2.0})
+            else:
+                junk = copy.deepcopy(_BI_JUNK[(case["junk"] + j) % len(_BI_JUNK)])
+                if isinstance(junk, dict):
+                    junk["target_id"] = it["key"]
+                items.append(junk)
+        body = {"schema_version": "v1", "version_etag": "0", "store": {"weights": items}}
+        if case.get("via") == "numbered":
+            name = "snap_000001.json"
+        else:
+            name = "state_A.json"
+        os.makedirs(s.snapdir, exist_ok=True)
+        with open(os.path.join(s.snapdir, name), "w") as f:
+            json.dump(body, f)
+        where = f"boot with store.weights={items!r} over a store holding {sorted(t['prior'])}"
+        if case.get("direct"):
+            import clematis.engine.snapshot as S
+            try:
+                S._import_store_from_snapshot(store, body["store"])
+            except Exception as e:
+                return [("TurnCompletes", f"{where}: _import_store_from_snapshot raised {type(e).__name__}: {e}")]
+        else:
+            o = s.run({})
+            if o["raised"]:
+                return [("TurnCompletes", f"{where}: run_turn raised {o['raised']}")]
+            if not o["log"] or o["log"][-1] != "turn":
+                return [("TurnCompletes", f"{where}: no final turn record: {o['log']}")]
+        got = {k[1]: v for k, v in store.w.items()}
+        want = {k: float(v) for k, v in (t["w"].items() if isinstance(t["w"], dict) else [])}
+        if got != want:
+            return [("CanonicalRecordsEqualIdle", f"{where}: the store's weight map after boot is {got}; the model ({t['pc']}) says {want} "
+                                                  f"(a failed import must leave the store as the idle run has it)")]
+        return []
+    finally:
+        shutil.rmtree(work, ignore_errors=True)
+
+
+def boot_import_part(run) -> None:
+    from ..tlc import TLCError
+    q = run.quick
+    consts = {"Keys": ["ka", "kb", "kc"], "MaxItems": 3, "InPlace": False}
+    invs = ["FailedImportIsIdle", "IntactImportIsComplete", "NeverAMixture", "AtomicImport"]
+    cfg = make_cfg(consts, invs, [], emit=False, view=None, constraint="EmitTerminal")
+    res = run.tlc("BootImport", cfg, name="BootImport", workers=8, timeout_s=600)
+    run.model_must_hold(res)
+    cfg2 = make_cfg(dict(consts, InPlace=True), ["AtomicImport"], [], emit=False, view=None)
+    res2 = run.tlc("BootImport", cfg2, name="BootImport_in_place_control", workers=4, timeout_s=600)
+    if res2.violation is None:
+        raise TLCError("BootImport.tla with InPlace=TRUE should violate AtomicImport")
+    run.ok("Model.in_place_import_refuted")
+    cases = []
+    for n, t in enumerate(res.emitted):
+        if q and n % 5 and all(it["ok"] for it in t["items"]):
+            continue
+        cases.append({"t": t, "junk": n % len(_BI_JUNK), "direct": n % 3 == 0, "via": "numbered" if n % 4 == 1 else "state", "workdir": run.workdir})
+    for c, fails in zip(cases, pmap(boot_import_case, cases, chunk=8)):
+        run.traces += 1
+        cc = {k: v for k, v in c.items() if k != "workdir"}
+        run.case(("boot_import", json.dumps(cc, sort_keys=True)))
+        if not fails:
+            run.ok("FailSoft.boot_import_atomic")
+        for clause, msg in fails:
+            run.fail(clause, {"clause": clause, "sites": ["boot_store_import"]}, cc, msg, replay={"boot_import": cc})
+
+
+# ---- a quality layer that cannot run because of what its own settings hold ------------------------------------------
+QUALITY_JUNK = [
+    (("t2", "quality", "fusion", "alpha_semantic"), None), (("t2", "quality", "fusion", "alpha_semantic"), "x"),
+    (("t2", "quality", "fusion", "alpha_semantic"), [1]), (("t2", "quality", "fusion"), 5), (("t2", "quality", "fusion", "mode"), None),
+    (("t2", "quality", "mmr", "lambda"), None), (("t2", "quality", "mmr", "lambda"), "x"), (("t2", "quality", "mmr", "k"), None),
+    (("t2", "quality", "mmr", "k"), "x"), (("t2", "quality", "mmr"), "on"),
+    (("t2", "quality", "lexical", "bm25_k1"), None), (("t2", "quality", "lexical", "bm25_b"), "x"), (("t2", "quality", "lexical"), 7),
+    (("t2", "quality", "lexical", "stopwords"), 3), (("t2", "quality", "normalizer"), 5), (("t2", "quality", "aliasing"), 5),
+]
+
+
+def quality_junk_case(case) -> List[Tuple[str, str]]:
+    """t2.quality enabled with the metrics gate open, one setting of the layer holding junk (set after validation, as a
+    raw configuration delivers it): whatever the layer makes of it, the turn completes"""
+    from ..turnrun import Session
+    from .. import engine as E
+    os.environ["CI"] = "true"
+    path, junk = QUALITY_JUNK[case["k"]]
+    work = tempfile.mkdtemp(prefix="c20q_", dir=case["workdir"])
+    try:
+        cfg = {"perf": {"enabled": True, "metrics": {"report_memory": True}},
+               "t2": {"quality": {"enabled": True, "mmr": {"enabled": bool(case["mmr"])}}}}
+        eps = [E.mk_episode(f"ep{j}", "A", "I like apple and banana" + " very" * j, ts=f"2025-08-{10 + j:02d}T00:00:00Z", importance=0.5) for j in range(4)]
+        s = Session(os.path.join(work, "w"), base_cfg=cfg, episodes=eps)
+        s.post_cfg = {tuple(path): copy.deepcopy(junk)}
+        for turn in range(2):
+            try:
+                o = s.run({})
+            except (KeyError, TypeError) as e:      # the path does not exist in the normalised configuration: nothing to test
+                return [("__skip__", f"{path}: {type(e).__name__}")]
+            where = f"t2.quality live, metrics gate open, {'.'.join(path)} = {junk!r} (mmr {'on' if case['mmr'] else 'off'}), turn {turn + 1}"
+            if o["raised"]:
+                return [("TurnCompletes", f"{where}: run_turn raised {o['raised']}")]
+            if not o["log"] or o["log"][-1] != "turn":
+                return [("TurnCompletes", f"{where}: no final turn record: {o['log']}")]
+        return []
+    finally:
+        shutil.rmtree(work, ignore_errors=True)
+
+
+def quality_junk_part(run) -> None:
+    cases = [{"k": k, "mmr": m, "workdir": run.workdir} for k in range(len(QUALITY_JUNK)) for m in (0, 1)]
+    for c, fails in zip(cases, pmap(quality_junk_case, cases, chunk=2)):
+        cc = {k: v for k, v in c.items() if k != "workdir"}
+        if fails and fails[0][0] == "__skip__":
+            run.guarded_out += 1
+            continue
+        run.traces += 1
+        run.case(("quality_junk", json.dumps(cc, sort_keys=True)))
+        if not fails:
+            run.ok("FailSoft.quality_junk_settings_tolerated")
+        for clause, msg in fails:
+            run.fail(clause, {"clause": clause, "sites": ["quality_settings"], "path": ".".join(QUALITY_JUNK[c["k"]][0])}, cc, msg, replay={"quality_junk": cc})
